@@ -17,6 +17,7 @@ type StructOpt struct {
 	Depth    int
 	TypeOK   func(*progen.Type) bool
 	Enumerated []*progen.Type // extra fixed types (bounded-exhaustive slices)
+	EnumFn     func(env *progen.Env) []*progen.Type // extra types computed from the environment
 	TopShapes  bool           // wrap most drawn types in a top-level pointer / slice / map (DeepCopy's argument forms)
 }
 
@@ -65,6 +66,9 @@ func DrawStructural(rt *rapid.T, o StructOpt) *Subject {
 		}
 		seen[k] = true
 		types = append(types, t)
+	}
+	if o.EnumFn != nil {
+		o.Enumerated = append(append([]*progen.Type{}, o.Enumerated...), o.EnumFn(env)...)
 	}
 	for _, t := range o.Enumerated {
 		k := progen.AssignKey(t)
